@@ -75,6 +75,13 @@ class SqlWorld:
         except Exception as e:  # noqa: BLE001
             return "err:" + type(e).__name__
 
+    def count_rows(self, from_clause) -> int:
+        try:
+            q = sqlalchemy.select(sqlalchemy.func.count()).select_from(from_clause)
+            return int(self.conn.execute(q).scalar())
+        except Exception:  # noqa: BLE001
+            return -1
+
     def fresh_name(self, prefix: str = "tmp") -> str:
         self.tmp += 1
         return f"{prefix}{self.tmp}"
@@ -99,6 +106,8 @@ class SqlWorld:
             return "bad-sqlexec"
         try:
             executable = rel.engine.to_executable(rel)
+            again = rel.engine.to_executable(rel)
+            same_sql = str(executable.compile(self.db)) == str(again.compile(self.db))
         except Exception as e:  # noqa: BLE001
             from impl import exc_name
 
@@ -110,7 +119,7 @@ class SqlWorld:
             from impl import exc_name
 
             return "err database " + exc_name(e)
-        return f"ok rows0={proto.show_rows(rows0)} rows1={proto.show_rows(rows1)}"
+        return f"ok rows0={proto.show_rows(rows0)} rows1={proto.show_rows(rows1)} sqlsame={proto.show_bool(same_sql)}"
 
 
 class NoSerials:
